@@ -28,7 +28,7 @@ CR = "profirust"
 
 def is_des(t):
     t = strip_refs(t)
-    return t[0] == "call" and M.callee_matches(t[1], "fdl::telegram::Telegram::deserialize") and path_str(strip_refs(t[2][0])) == "buffer"
+    return t[0] == "call" and M.callee_matches(t[1], "fdl::telegram::Telegram::deserialize") and path_str(strip_refs(t[2][0])) == BUF["name"]
 
 
 def ok_tuple_field(t, idx):
@@ -60,11 +60,16 @@ def verdict(fs):
 
 def is_len_buffer(t):
     t = strip_casts(t)
-    return t[0] == "len" and path_str(t[1]) == "buffer"
+    return t[0] == "len" and path_str(t[1]) == BUF["name"]
+
+
+BUF = {"name": "buffer"}  # the received-bytes parameter of the helper closure under analysis (by position, whatever it is called)
 
 
 def check_helper_closure(ctx, P, f, multi):
     ctx.analysed_fns.add(f.name)
+    if f.argc >= 2 and f.locals[2].get("name"):
+        BUF["name"] = f.locals[2]["name"]
     g = GuardAnalysis(f, P)
     tb = g.tb
     name = f.name.split("::")[-2]
